@@ -8,6 +8,37 @@ import valgen
 from framework import Run
 
 
+def explicit_over_default(key, configured, explicit_values):
+    """-> an [extra] hook: under set_default_config(key=configured) an EXPLICIT key=... argument - None
+    included - gives exactly the text it gives under the factory defaults"""
+    def extra(run, res):
+        import prettyprinter as P
+        factory = dict(P.get_default_config())
+        sample = res[::max(1, len(res) // 120)][:150]
+        n = 0
+        try:
+            for c in sample:
+                for ev in explicit_values:
+                    cfg = dict(c.cfg)
+                    cfg[key] = ev
+                    P.set_default_config(**{key: factory[key]})
+                    base, _w = PC.impl_pformat(c.value, cfg)
+                    P.set_default_config(**{key: configured})
+                    got, _w = PC.impl_pformat(c.value, cfg)
+                    n += 1
+                    if got != base and len(run.violations) < 5:
+                        run.violation({'kind': 'explicit-over-default', 'key': key, 'configured_default': configured,
+                                       'detail': 'with set_default_config(%s=%r) the explicit argument %s=%r prints\n%s\n'
+                                                 '--- under the factory defaults ---\n%s' % (key, configured, key, ev,
+                                                                                           got[:300], base[:300]),
+                                       'term': PC.jsonable(c.term), 'cfg': cfg})
+        finally:
+            P.set_default_config(**{key: factory[key]})
+        run.count(n)
+        run.coverage['explicit_over_default_cases'] = n
+    return extra
+
+
 def run_property(prop, tier, cases, oracle, rule, nontrivial=None, known=None, extra=None, max_viol=3):
     """cases: list of (origin, term, cfg); oracle(case) -> None | message |
     ('known', finding_id, message); known: dict finding_id -> entry (open findings)."""
